@@ -34,3 +34,9 @@ func VerifAccumulatedWait(stop SolutionStop, constraint ModelConstraint) (float6
 	}
 	return data.accumulatedWait, true
 }
+
+// VerifNewMoveUnits builds a units move (a move of a plan-units unit) from the
+// given member moves, as bestMovePlanAllUnit does after it found them.
+func VerifNewMoveUnits(planUnit SolutionPlanUnitsUnit, moves SolutionMoves) SolutionMove {
+	return newSolutionMoveUnits(planUnit.(*solutionPlanUnitsUnitImpl), moves)
+}
